@@ -345,7 +345,7 @@ pub fn run() {
     let t = c.tier;
     c.set_rule("cases = diagrams whose spiders carry variable parities over {b0,b1,b2,b5} (rule applications and simplifiers checked under ALL assignments, both backends) and circuits with measure / measure-reset gates (translation checked for every outcome assignment, 3 modes x 2 backends); non-trivial = variables present and at least one rule accepted / rewrite fired, resp. at least one measurement; distinct = distinct descriptions");
     c.assume("oracles O1/O2/O3 correct (self-tested, cross-checked); instantiation is done by the harness from the public interface (vars(), scalar_factors(), Parity/Expr iterators)");
-    let (ms, n_rand) = t.pick((5usize, 600usize), (8usize, 30_000usize));
+    let (ms, n_rand) = t.pick((5usize, 2000usize), (8usize, 40_000usize));
     par_cases("vars-graph-like", n_rand, move |r, i| {
         let d = gen_random(r, &DiagParams { max_spiders: ms + 1, max_bnd: 3, pool: PhasePool::CliffordHeavy, graph_like: true, bare_wires: false, var_prob: 0.5 });
         check_desc("vars-graph-like", i, r, &d);
@@ -363,7 +363,7 @@ pub fn run() {
         let d = gen_random(r, &DiagParams { max_spiders: 3, max_bnd: 1, pool: PhasePool::Exact, graph_like: false, bare_wires: false, var_prob: 0.8 });
         check_desc("vars-pauli-pairs", i, r, &d);
     });
-    let (nq, depth, nc) = t.pick((3usize, 12usize, 600usize), (5usize, 30usize, 30_000usize));
+    let (nq, depth, nc) = t.pick((3usize, 12usize, 2000usize), (5usize, 30usize, 40_000usize));
     par_cases("measure-circuits", nc, move |r, i| {
         let mut p = CircParams::unitary(nq, depth, if r.chance(0.8) { PhPool::Exact } else { PhPool::Float });
         p.measure = true;
